@@ -19,10 +19,20 @@ def rand_pool(rng):
     # a schema with two defective added types: which one Check reports must not depend on map order
     if rng.random() < 0.3:
         schemas.append({"text": "{\n  \"a\": @x,\n  \"b\": @y\n}", "types": [["@x", "1 // {min: 5}"], ["@y", "\"s\" // {minLength: 9}"]]})
+    shared = []
+    if rng.random() < 0.35:
+        # user-type objects shared by the schemas of the pool: an allOf child without required own keys, its parents also used on their own
+        own = rng.choice(["", '\n  "o": true // {optional: true}\n'])
+        shared = [["@A", '{\n  "a": 1\n}'], ["@B", '{\n  "b": 2\n}'], ["@M", "{ // {allOf: %s}%s}" % (rng.choice(['["@A", "@B"]', '["@B", "@A"]', '"@A"']), own)]]
+        menu = [("@A", ["@A"]), ("@M", None), ("@B", ["@B"]), ('{\n  "x": @A,\n  "y": @M // {optional: true}\n}', None), ("[@M, @A]", None), ('{\n  "p": @A,\n  "q": @B\n}', ["@A", "@B"])]
+        for t, use in rng.sample(menu, rng.choice([2, 3, 4])):
+            schemas.append({"text": t, "types": [], "use_shared": use} if use is not None else {"text": t, "types": []})
     docs = [J.print_doc(J.rand_doc(rng, 2), rng) for _ in range(2)] + ['{"a":1}', "[1, 2", ""]
+    if shared:
+        docs = ['{"a":1}', '{"a":1,"b":2}', '{"b":2}', '{"x":{"a":1}}', '[{"a":1,"b":2},{"a":1}]', '{"p":{"a":1},"q":{"b":2}}', ""]
     enums = [rng.choice(['[1, 2, "a"]', '[\n  "x", // c\n  null\n]', "[1, 1]", "[1"])]
     regexes = [rng.choice(["/[a-c]{3}/", "/x+y?/", "/(ab|cd)\\d/", "/a"])]
-    return {"schemas": schemas, "docs": docs, "enums": enums, "regexes": regexes}
+    return {"schemas": schemas, "shared_types": shared, "docs": docs, "enums": enums, "regexes": regexes}
 
 
 def rand_ops(rng, pool, n):
@@ -30,8 +40,8 @@ def rand_ops(rng, pool, n):
     for _ in range(n):
         r = rng.random()
         si = rng.randrange(len(pool["schemas"]))
-        if r < 0.55:
-            name = rng.choice(["check", "len", "example", "ast", "used", "validate", "validate", "example"])
+        if r < 0.55 or (pool.get("shared_types") and r < 0.9):
+            name = rng.choice(["check", "len", "example", "ast", "used", "validate", "validate", "example"] + (["validate"] * 6 if pool.get("shared_types") else []))
             ops.append([name, si, rng.randrange(len(pool["docs"]))] if name == "validate" else [name, si])
         elif r < 0.7:
             ops.append([rng.choice(["dcheck", "dlen"]), rng.randrange(len(pool["docs"]))])
@@ -79,7 +89,7 @@ def run(ctx):
         rs = [json.loads(o) for o in outs]
         for k, op in enumerate(c["ops"]):
             h, f, late = rs[0][k]
-            info = {"pool": {kk: c[kk] for kk in ("schemas", "docs", "enums", "regexes")}, "history": c["ops"][:k + 1], "op": op, "in_history": h, "fresh": f, "later": late}
+            info = {"pool": {kk: c.get(kk) for kk in ("schemas", "shared_types", "docs", "enums", "regexes")}, "history": c["ops"][:k + 1], "op": op, "in_history": h, "fresh": f, "later": late}
             if h != f:
                 if len(ctx.violations) < 40:
                     ctx.report("operation %s after history %s returns %s, on fresh objects %s" % (op, c["ops"][:k], h[:100], f[:100]), "c11h:" + l + str(k), info, case=info)
